@@ -14,6 +14,8 @@ Require Import DS.Model.CommitMeta DS.Model.CommitLate DS.Proofs.C01Statements.
 Require Import DS.Model.ProcLockBase DS.Gen.GenFileLock DS.Model.ProcLock DS.Model.ProcLockKeep.
 Require DS.Proofs.ProcLockProofs.
 Require DS.Model.Meta DS.Model.MetaSpec.
+Require Import DS.Model.FlipFault DS.Model.TxSettle.
+Require DS.Proofs.TxSettleProofs.
 Import ListNotations.
 Open Scope Z_scope.
 
@@ -372,3 +374,49 @@ Example C01_budget_nonvacuous :
                ev 0 (ELockTry true); ev 0 (EValidate 1 false); ev 0 ERelease ]%nat in
   a_pc (w_actors w 0%nat) = PDone Conflict /\ a_attempt (w_actors w 0%nat) = 0%nat /\ map snd (w_hist w) = [1%nat].
 Proof. vm_compute. repeat split. Qed.
+
+
+(* ------------------------------------------------------------------------------------------------------------------------
+   The commit-point write FAILS (storage fault: not applied, or applied with the response lost) and the transaction decides,
+   OUTSIDE the metadata lock, what to tell its caller (Model/TxSettle.v over Model/FlipFault.v; conditional-write storage).
+   Every schedule: any number of committers, faults at anybody's pointer write, other committers running to completion between
+   the fault, the lock release and the transaction's decision (TSettle is a step of its own).
+
+   For EVERY settle policy that never contradicts the published history: a commit reported as a definite failure is not
+   reflected in the version chain, a commit reported as committed is, and no data file of a reflected commit is deleted. *)
+Theorem C01_settle_outside_lock_sound : forall pol c atomic m0 kind mr ts, cas c = true -> sound_policy pol ->
+  let T := trun pol c atomic (tinit (init_world m0 kind mr)) ts in
+  forall a, let h := map snd (w_hist (xw (t_x T))) in
+    (t_rep T a = Some RepFailed -> ~ In a h)
+    /\ (t_rep T a = Some RepSuccess -> In a h)
+    /\ (In a (t_deleted T) -> ~ In a h).
+Proof. exact TxSettleProofs.settle_sound. Qed.
+Print Assumptions C01_settle_outside_lock_sound.
+
+(* The policy of the SOURCE is read off the regenerated handler table (gen_tx_on over gen_flip_exn): on conditional-write
+   storage the arm for a failed commit-point write asserts nothing (the ambiguous error is re-raised, files kept) -- so the
+   statement above holds for the regenerated program, and it never deletes a file on this path. *)
+Theorem C01_regenerated_settle_sound : forall c atomic last m0 kind mr ts, cas c = true ->
+  let T := trun (gen_policy (cas c) atomic last) c atomic (tinit (init_world m0 kind mr)) ts in
+  settle_consistent T /\ t_deleted T = [].
+Proof. exact TxSettleProofs.regenerated_settle_sound. Qed.
+Print Assumptions C01_regenerated_settle_sound.
+
+(* "Is the CURRENT version ours?" is not such a policy: with it the statement is false.  Witness (a strict run, every event
+   enabled): committer 0's conditional write is applied, the response lost, the lock released; committer 1 commits on top of the
+   version committer 0 published; committer 0's read-back then sees committer 1's version, reports a definite failure and
+   deletes its data files -- while its commit is in the chain (TxSettleProofs.tip_witness_accepted). *)
+Theorem C01_tip_read_back_refuted :
+  ~ (forall c atomic m0 kind mr ts, cas c = true -> settle_consistent (trun tip_policy c atomic (tinit (init_world m0 kind mr)) ts)).
+Proof. exact TxSettleProofs.tip_policy_refuted. Qed.
+Print Assumptions C01_tip_read_back_refuted.
+
+(* non-vacuity: the same schedule under the regenerated policy -- accepted event by event, the settle step runs, the caller is
+   told "ambiguous", nothing is deleted, the commit is in the chain *)
+Example C01_settle_nonvacuous :
+  match trun_strict (gen_policy true false false) TxSettleProofs.tip_cfg false
+          (tinit (init_world TxSettleProofs.tip_m0 (fun _ => KFresh) (fun _ => 50%nat))) TxSettleProofs.tip_witness 0 with
+  | inl T => t_rep T 0%nat = Some RepAmbiguous /\ t_deleted T = [] /\ map snd (w_hist (xw (t_x T))) = [0%nat; 1%nat]
+  | inr _ => False
+  end.
+Proof. exact TxSettleProofs.gen_witness_accepted. Qed.
